@@ -86,12 +86,10 @@ def run(ctx):
     }
     guards = {frozenset(q.atoms(a)) for a in rec}
     found = {}
-    for a in sd.assigns:
-        lc = a.lhs.canon()
-        if lc.startswith('self.packet.') or lc.startswith('Cat(self.packet.'):
-            if lc == 'self.packet.received':
-                continue
-            found.setdefault(lc, []).append(a)
+    fields = sorted({t for a in sd.assigns for t in a.lhs_sigs() if t.startswith('self.packet.') and t != 'self.packet.received'})
+    for f_ in fields:
+        for a in q.merged_drivers(sd, f_):          # a field written slice by slice under one guard counts as one assignment
+            found.setdefault(a.lhs.canon(), []).append(a)
     for lhs, rhs in want.items():
         ds = found.pop(lhs, [])
         ok = len(ds) == 1 and ds[0].rhs.canon() == rhs and frozenset(q.atoms(ds[0])) in guards
